@@ -22,6 +22,9 @@ type Opts struct {
 	MaxRules   int
 	Depth      int
 	ShuffleAct bool // write the actions of a rule in any order
+	// BigPct: percentage of specs that get 60-160 extra keyword-like literal tokens in the
+	// default mode (several hundred DFA states: row offsets and state numbers beyond one byte)
+	BigPct int
 }
 
 func ri(t *rapid.T, lo, hi int, l string) int { return rapid.IntRange(lo, hi).Draw(t, l) }
@@ -182,6 +185,24 @@ func GenSpec(t *rapid.T, o Opts) *Spec {
 				tokNames = append(tokNames, r.Name)
 			}
 			m.Rules = append(m.Rules, r)
+		}
+	}
+	if o.BigPct > 0 && ri(t, 0, 99, "bigspec") < o.BigPct {
+		seen := map[string]bool{}
+		letters := []rune("abcdef")
+		for i, n := 0, ri(t, 60, 160, "nkw"); i < n; i++ {
+			l := ri(t, 2, 5, "kwlen")
+			rs := make([]rune, l)
+			for j := range rs {
+				rs[j] = letters[ri(t, 0, len(letters)-1, "kwc")]
+			}
+			if seen[string(rs)] {
+				continue
+			}
+			seen[string(rs)] = true
+			name := fmt.Sprintf("KW%d", i)
+			s.Modes[0].Rules = append(s.Modes[0].Rules, &Rule{Name: name, E: &Expr{Kind: "lit", Lit: string(rs)}})
+			tokNames = append(tokNames, name)
 		}
 	}
 	if len(tokNames) == 0 {
